@@ -367,8 +367,7 @@ CARRIES = (
 )
 
 
-def rule_r1(ctx):
-    rid = "C02.R1"
+def rule_r1(ctx, rid="C02.R1"):
     ctx.r.rule(rid, "carry pairing: join before any search; store back and consume everything when unfinished; reset (or make the phase unreachable) when finished")
     p = ctx.p
     for (q, carry) in CARRIES:
@@ -575,7 +574,14 @@ def rule_r4(ctx):
             ctx.r.violation(rid, key_of(f, None, "parser-reset-guarded"), "the completed parser is only dropped under %s" % extra, f.loc(n.ast))
 
 
-RULES = [rule_r1, rule_r2_header, rule_r2_receivers, rule_r3, rule_r4]
+def rule_r5(ctx):
+    """Shared with C19.R3: the 100-continue latch is cleared only where a request completes (in received()), so whether the
+    interim response is sent does not depend on where the reads were cut."""
+    from . import c19
+    c19.rule_r3(ctx, rid="C02.R5")
+
+
+RULES = [rule_r1, rule_r2_header, rule_r2_receivers, rule_r3, rule_r4, rule_r5]
 
 from ..selftest import M, T, V  # noqa: E402
 
